@@ -955,12 +955,18 @@ static HsParts valid_handshake(Rng &r) {
 	hs.push_back(vary_name(r, "Connection") + ": " + cv[r.below(5)]);
 	hs.push_back(vary_name(r, "Sec-WebSocket-Key") + ": " + h.key);
 	hs.push_back(vary_name(r, "Sec-WebSocket-Version") + ": 13");
-	switch (r.below(6)) {
+	switch (r.below(7)) {
 	case 0: hs.push_back(vary_name(r, "Sec-WebSocket-Protocol") + ": chat, jet"); break;
 	case 1: hs.push_back(vary_name(r, "Sec-WebSocket-Protocol") + ": jet, chat"); break;
 	case 2: hs.push_back(vary_name(r, "Sec-WebSocket-Protocol") + ": chat"); hs.push_back(vary_name(r, "Sec-WebSocket-Protocol") + ": jet"); break;
 	case 3: hs.push_back(vary_name(r, "Sec-WebSocket-Protocol") + ": superchat,jet,chat"); break;
+	case 4: { static const char *ows[] = {"jet , chat", "chat ,jet", "jet\t, chat", "chat , jet ,x", "chat,\tjet"}; hs.push_back(vary_name(r, "Sec-WebSocket-Protocol") + ": " + ows[r.below(5)]); break; }   // optional whitespace around list commas (RFC 7230 section 7)
 	default: hs.push_back(vary_name(r, "Sec-WebSocket-Protocol") + ": jet"); break;
+	}
+	// optional whitespace around field values is not part of the value (RFC 7230 section 3.2.4)
+	for (auto &l : hs) {
+		if (r.chance(0.12)) { size_t c = l.find(": "); if (c != std::string::npos) l.replace(c, 2, r.chance(0.4) ? ":" : r.chance(0.5) ? ":  " : ":\t"); }
+		if (r.chance(0.1)) l += r.chance(0.6) ? " " : r.chance(0.5) ? "\t" : "  ";
 	}
 	static const char *extra[] = {"Origin: http://example.com", "Pragma: no-cache", "Cache-Control: no-cache", "User-Agent: sim/1.0 (x; y)", "Accept-Language: de,en;q=0.8", "X-Empty:", "Cookie: a=b; c=d", "Sec-WebSocket-Extensions: x-unknown-ext"};
 	int ne = (int)r.below(4); for (int i = 0; i < ne; i++) hs.push_back(extra[r.below(8)]);
@@ -1430,7 +1436,7 @@ Plan gen_c19(const std::string &profile, uint64_t seed, const JV &opts) {
 		GClient *gc = g.alive_client(); if (!gc) break;
 		double x = r.unit();
 		if (x < 0.04) { Op o = g.mk("close", gc->c); o.a.set("how", JV::str(r.chance(0.7) ? "fin" : "rst")); o.dt = g.pick_dt(); g.p.ops.push_back(o); gc->alive = false; continue; }
-		if (x < 0.08 && i > 0) { Op o = g.mk("c19", gc->c); o.a.set("stray", JV::boolean(true)); o.a.set("hex", JV::str(hexenc("stray-" + std::to_string(i)))); o.dt = g.pick_dt(); g.p.ops.push_back(o); gc->alive = false; continue; }
+		if (x < 0.08 && i > 0) { Op o = g.mk("c19", gc->c); o.a.set("stray", JV::boolean(true)); { static const char *vk[] = {"stray", "stray", "rsv23", "ctrl_rsv1", "newstart", "whole_inside", "cont_rsv"}; o.a.set("vkind", JV::str(vk[r.below(7)])); } o.a.set("hex", JV::str(hexenc("stray-" + std::to_string(i)))); o.dt = g.pick_dt(); g.p.ops.push_back(o); gc->alive = false; continue; }
 		Op o = g.mk("c19", gc->c);
 		std::string m; size_t n;
 		switch (r.below(10)) {
@@ -1454,6 +1460,8 @@ Plan gen_c19(const std::string &profile, uint64_t seed, const JV &opts) {
 		if (r.chance(0.12)) o.a.set("plain", JV::boolean(true));
 		if (r.chance(0.35)) { JV fr = JV::arr(); int nf = 1 + (int)r.below(5); for (int k = 0; k < nf; k++) fr.push(JV::num((double)(r.chance(0.3) ? 0 : 1 + r.below(r.chance(0.5) ? 8 : 300)))); o.a.set("frags", fr); }
 		if (o.a.has("frags") && r.chance(0.12)) { o.a.set("omit_last", JV::boolean(true)); gc->alive = false; }
+		if (o.a.has("frags") && r.chance(0.2)) o.a.set("ping_inside", JV::boolean(true));
+		if (r.chance(0.1)) o.a.set("bfinal", JV::boolean(true));
 		if (r.chance(0.08)) { static const char *ck[] = {"flip", "flip", "trunc", "junk"}; o.a.set("corrupt", JV::str(ck[r.below(4)])); o.a.set("cpos", JV::num(r.unit())); gc->alive = r.chance(0.5); }
 		JV sg = g.seg_for(m.size() + 8); if (sg.t != JV::Null) { o.a.set("seg", sg); o.a.set("gap", JV::num(0)); }
 		o.dt = g.pick_dt(); o.hold = r.chance(g.p_hold);
